@@ -554,6 +554,31 @@ def _evalcond(ctx: Ctx, f: FuncInfo, e: ast.expr, env: dict):
             return a not in b
     if isinstance(e, (ast.Tuple, ast.List, ast.Set)):
         return tuple(_evalcond(ctx, f, x, env) for x in e.elts)
+    if isinstance(e, ast.Call) and isinstance(e.func, ast.Name) and e.func.id == "next" and len(e.args) == 2 and isinstance(e.args[0], ast.GeneratorExp) and len(e.args[0].generators) == 1 and isinstance(e.args[0].generators[0].target, ast.Name) and not e.keywords:
+        # first element of a filtered scan, or the default
+        ge = e.args[0]
+        gg = ge.generators[0]
+        seq = _evalcond(ctx, f, gg.iter, env)
+        if not isinstance(seq, (tuple, list)):
+            raise AnalysisError(f"WRAP-COND: cannot evaluate `{t}`: the scanned value is not a sequence")
+        for item in seq:
+            env3 = dict(env)
+            env3[gg.target.id] = item
+            if all(_evalcond(ctx, f, c_, env3) for c_ in gg.ifs):
+                return _evalcond(ctx, f, ge.elt, env3)
+        return _evalcond(ctx, f, e.args[1], env)
+    if isinstance(e, ast.Call) and isinstance(e.func, ast.Attribute) and e.func.attr == "get" and 1 <= len(e.args) <= 2 and not e.keywords:
+        # lookup in a constant table (enum members count as their numbers: IntEnum members hash and compare as ints)
+        try:
+            tab = ctx.folder.fold(ctx.prog.origin(f.module, e.func.value), e.func.value)
+            if isinstance(tab, dict):
+                tab = {ctx.folder.plain(k_): ctx.folder.plain(v_) for k_, v_ in tab.items()}
+        except Exception:  # noqa: BLE001
+            tab = None
+        if isinstance(tab, dict):
+            k_ = _evalcond(ctx, f, e.args[0], env)
+            d_ = _evalcond(ctx, f, e.args[1], env) if len(e.args) == 2 else None
+            return tab.get(k_, d_)
     if isinstance(e, ast.Call):
         # a predicate helper: interpret its body (if/return only) with the arguments renamed to its parameters
         from .common import callee_names
